@@ -239,6 +239,12 @@ class OverbookOracle:
                 raise Violation("C18.not_ready", {"pipeline": a.pipeline_id}, t)
             if self.fails.get(a.pipeline_id, 0) >= 3:
                 raise Violation("C18.abandoned_assigned", {"pipeline": a.pipeline_id, "failed_containers": self.fails[a.pipeline_id]}, t)
+        for pl in ex.pools:
+            # judged at the decision: the executor would refuse the batch and the run would end before on_tick sees it
+            n = len(pl.active_containers) + len(pl.suspending_containers) + sum(1 for a in rd["asg"] if a.pool_id == pl.pool_id)
+            if n > pl.max_cpu_pool:
+                raise Violation("C18.more_containers_than_cpus", {"pool": pl.pool_id, "containers_after_round": n,
+                                                                  "cpus": pl.max_cpu_pool, "when": "decision"}, t)
         if rd["results"] or rd["new"]:
             if any(post[i][0] >= 1 for i in range(npools)):
                 for p in R.pipes:
